@@ -4,7 +4,8 @@ from ..e1 import engine, gen, oracles, reduce, sim
 
 RULE = ("yield-only programs (no synchronous re-entry) with unequal depths so that requests become issuable in different rounds, DAG sharing, errors, "
         "try/except, contexts, 1-3 batch kinds and generated priority tables; non-trivial = at least 2 flushes and at least one task ran between two flushes; "
-        "distinct = distinct program JSON")
+        "distinct = distinct program JSON. (after-a-leftover-request) the same invariant for a program that starts while the scheduler still holds a request "
+        "registered by an earlier computation (whose task failed while parked on it); non-trivial = a request was left and the program flushes")
 ASSUMPTIONS = ["with several batch kinds the number of flushes is schedule-dependent, so only the per-flush invariant is asserted there; "
                "flush count and contents are compared with the round simulator for single-kind programs"]
 
@@ -12,7 +13,8 @@ BASE = dict(sync=False, ctx=("rec", "ov"), dag=True, orphans=True, shapes=("chai
 
 
 def strat_multi(tier):
-    return gen.programs(gen.Cfg(max_tasks=12 if tier == "quick" else 40, **BASE))
+    # flush bodies may fail: the items of a failed flush are complete (with the error), so their waiters can run before the next flush
+    return gen.programs(gen.Cfg(max_tasks=12 if tier == "quick" else 40, flush_faults=("raise",), catch_p=2, **BASE))
 
 
 def strat_single(tier):
@@ -57,6 +59,36 @@ def check_single(prog, ctx):
     return viol
 
 
+def strat_leftover(tier):
+    from hypothesis import strategies as st
+    return st.fixed_dictionaries({"kind": st.sampled_from(["a", "b"]), "how": st.sampled_from(["na", "pause-fails"]),
+                                  "prog": gen.programs(gen.Cfg(max_tasks=8 if tier == "quick" else 24, kinds=["a", "b"], **BASE))})
+
+
+def leftover_program(kind, how):
+    """a computation that ends normally while a request of ``kind`` is still registered with the scheduler: a task parks on
+    the request inside a context that refuses to be paused, fails, and its parent handles the failure"""
+    ctx = ["na", 0] if how == "na" else ["fail", 0, None, 1]
+    child = {"id": 1, "via": "return", "body": [{"op": "with", "ctx": ctx, "body": [{"op": "yield", "y": ["item", kind, 0, "ok", 0], "catch": False}]}]}
+    root = {"id": 0, "via": "return", "body": [{"op": "yield", "y": ["task", child], "catch": True}]}
+    return {"root": root, "shape": "leftover", "prio": {}, "faults": [], "conv": "value", "nsv": 2}
+
+
+def check_leftover(case, ctx):
+    """the same invariant for a computation that starts while the scheduler still holds a request of an earlier one"""
+    from asynq import scheduler
+    first = engine.run_program(leftover_program(case["kind"], case["how"]))
+    left = len(scheduler.get_scheduler()._batches) if hasattr(scheduler.get_scheduler(), "_batches") else None
+    env = engine.run_program(case["prog"], check_c04=True, reset=False)
+    viol = oracles.clauses(env, "C04.")
+    foreign = any(e[0] == "before" and e[1] == "foreign" for e in env.events)
+    ctx.label("first-computation-outcome=" + first.outcome[0])
+    ctx.label("request-left-registered", bool(left))
+    ctx.label("leftover-request-flushed-during-the-next-computation", foreign)
+    ctx.nontrivial(case, bool(left) and len(env.flushes) >= 1)
+    return viol
+
+
 def sizes(tier):
     from ..e1 import wide
     return wide.specs(["fan-tasks", "list-items", "fan-one-fails"], tier == "quick")
@@ -80,4 +112,5 @@ def check_sizes(spec, ctx):
 
 SUBS = [Sub("invariant-multi-kind", check_multi, strategy=strat_multi, reduce=reduce.candidates, examples={"quick": 3000, "thorough": 200000}),
         Sub("single-kind-vs-simulator", check_single, strategy=strat_single, reduce=reduce.candidates, examples={"quick": 3000, "thorough": 200000}),
+        Sub("after-a-leftover-request", check_leftover, strategy=strat_leftover, examples={"quick": 1500, "thorough": 60000}),
         Sub("sizes", check_sizes, enumerate=sizes)]
